@@ -4,7 +4,7 @@ import ast, time, traceback
 import z3
 from . import ops, solve
 from .ops import SV, NONE, OutsideSubset
-from .engine import (Exec, Ctx, PathEnd, PyRaise, ReturnSig, BreakSig, ContinueSig, Ref, HObj, HList, HTuple, HDict,
+from .engine import (path_expr, Exec, Ctx, PathEnd, PyRaise, ReturnSig, BreakSig, ContinueSig, Ref, HObj, HList, HTuple, HDict,
                      Obligation, _as_load)
 from . import dropped as DROPPED
 from .contract import Contract, Lemma
@@ -24,6 +24,7 @@ class FnReport:
         self.covers = {}            # name -> bool reached
         self.notes = []
         self.path_outcomes = []
+        self.shapes = {}
 
 
 def setup_inputs(ex: Exec, unit, contract: Contract):
@@ -60,7 +61,7 @@ def setup_inputs(ex: Exec, unit, contract: Contract):
         if "." in path or "[" in path:
             try:
                 ex.spec_mode = True
-                ex.eval(ast.parse(path, mode="eval").body)
+                ex.eval(ast.parse(path_expr(path), mode="eval").body)
             except PyRaise:
                 pass
             finally:
@@ -140,7 +141,7 @@ def finish(ex: Exec, contract: Contract, outcome):
             continue
         try:
             ex.spec_mode = True
-            node = ast.parse(path, mode="eval").body
+            node = ast.parse(path_expr(path), mode="eval").body
             cur = ex.eval(node)
             old = ex.freeze_old(ex.in_old(lambda: ex.eval(node)))
         except (PyRaise, OutsideSubset):
@@ -179,6 +180,8 @@ def verify_contract(ctx: Ctx, contract: Contract, timeout_ms=20000, thorough=Fal
             if seen > MAX_PATHS:
                 raise OutsideSubset(f"more than {MAX_PATHS} paths")
             rep.path_outcomes.append(outcome[0] if outcome else "end")
+            for p_, (t_, v_) in ex.input_shapes.items():
+                rep.shapes.setdefault(p_, t_)
             for o in ex.obls:
                 o.inputs = dict(ex.inputs)
                 o.shapes = {p: t for p, (t, v) in ex.input_shapes.items()}
@@ -214,6 +217,20 @@ def discharge_reports(reports, timeout_ms=20000, thorough=False):
     res = solve.discharge(jobs, timeout_ms=timeout_ms, thorough=thorough)
     for (rep, k), r in zip(index, res):
         rep.results[k] = r
+    # second chance for undecided VCs: drop quantified assumptions (fewer assumptions: an unsat answer is still a proof)
+    weak, windex = [], []
+    for (rep, k), r in zip(index, res):
+        o = rep.obligations[k]
+        if o.kind != "cover" and r["result"] not in ("sat", "unsat") and any(_has_quant(c) for c in o.pc) and not _has_quant(o.goal):
+            weak.append((solve.to_smt2([c for c in o.pc if not _has_quant(c)], o.goal), list(o.inputs.keys())))
+            windex.append((rep, k))
+    if weak:
+        wres = solve.discharge(weak, timeout_ms=timeout_ms, thorough=False)
+        for (rep, k), r in zip(windex, wres):
+            if r["result"] == "unsat":
+                r["backend"] = r.get("backend", "?") + " (quantified assumptions dropped)"
+                r["seconds_total"] = r.get("seconds_total", 0) + rep.results[k].get("seconds_total", 0)
+                rep.results[k] = r
     return reports
 
 
